@@ -72,3 +72,22 @@ func c06MergeChild(args []string) int {
 		return map[string]interface{}{"total": total, "want": c.N * c.K}
 	})
 }
+
+func init() {
+	Children["c06agg"] = c06AggChild
+}
+
+// c06AggChild drives one real server-side aggregator the way a session does:
+// one file channel, lines in many groups, report intervals (the exported
+// Serialize, which is what the interval timer calls) while lines keep coming,
+// end of input; the consumer of the partial results is not infinitely fast.
+// Conservation: the partial results handed over account for every line once.
+func c06AggChild(args []string) int {
+	dir := args[0]
+	dt.Init(source.Server, "none", "none", "error", true)
+	return vlib.BatchMainPar(dir, 8, func(i int, raw json.RawMessage) interface{} {
+		var c c06AggCase
+		json.Unmarshal(raw, &c)
+		return runAggCase(c)
+	})
+}
